@@ -236,15 +236,23 @@ struct WorkerOut {
 	std::vector<uint64_t> inconclusive_idx;
 };
 
+// VERIF_STOP_EARLY=1 (used by tools/check_seeded.sh only): the batch ends soon after the first violation that is not a known finding
+static std::string stop_file() { return verif_dir() + "/build/work/stop-" + std::to_string((int)getppid()); }
+static std::string stop_file_parent() { return verif_dir() + "/build/work/stop-" + std::to_string((int)getpid()); }
+static bool stop_early() { static int v = -1; if (v < 0) v = getenv("VERIF_STOP_EARLY") ? 1 : 0; return v == 1; }
+
 static void worker_main(int w, int W, const Job &job, int tier, uint64_t base, uint64_t first, uint64_t nruns, double deadline, const std::string &outpath) {
 	FILE *f = fopen(outpath.c_str(), "w");
 	if (!f) _exit(3);
+	std::vector<Known> known_for_stop;
+	if (stop_early()) known_for_stop = load_known();
 	Engine *e = engine_by_name(job.engine);
 	std::map<std::string, uint64_t> counters;
 	std::set<uint64_t> states;
 	uint64_t done = 0;
 	for (uint64_t i = first; i < nruns; i += (uint64_t)W) {
 		if (now_s() > deadline) break;
+		if (stop_early() && access(stop_file().c_str(), F_OK) == 0) break;
 		fprintf(f, "S %llu\n", (unsigned long long)i);
 		fflush(f);
 		Plan p = e->generate_at(i, run_seed(base, job, i), job.property, tier);
@@ -253,6 +261,7 @@ static void worker_main(int w, int W, const Job &job, int tier, uint64_t base, u
 		alarm(0);
 		fprintf(f, "R %llu %llx %d %lld %d\n", (unsigned long long)i, (unsigned long long)rr.hash, rr.nontrivial ? 1 : 0, (long long)rr.sim_ms, rr.inconclusive ? 1 : 0);
 		for (auto &v : rr.violations) fprintf(f, "V %llu %s\n", (unsigned long long)i, ser_viol(v).c_str());
+		if (stop_early()) for (auto &v : rr.violations) if (!match_known(known_for_stop, v)) { FILE *sf = fopen(stop_file().c_str(), "w"); if (sf) fclose(sf); }
 		for (auto &c : rr.counters) counters[c.first] += c.second;
 		for (auto s : rr.abstract_states) states.insert(s);
 		done++;
@@ -339,6 +348,7 @@ static void run_batch(const Job &job, int tier, uint64_t base, uint64_t nruns, d
 			// the worker died inside run `last` (sanitizer abort, crash): remember it and carry on after it
 			if (last != (uint64_t)-1 && !last_done) {
 				out.crashed_at.push_back(last);
+				if (stop_early()) { FILE *sf = fopen(stop_file_parent().c_str(), "w"); if (sf) fclose(sf); }
 				s.first = last + (uint64_t)W;
 			} else if (last != (uint64_t)-1) s.first = last + (uint64_t)W;
 			else { s.done = true; live--; break; }
@@ -594,6 +604,7 @@ int cmd_check(const std::string &property, const std::string &tier_s) {
 			if (back) { regress_back++; regress_lines.push_back("VIOLATION property=" + rj.gets("property") + " replay=" + path); regress_lines.push_back("  a defect that was repaired (" + e.gets("commit") + ") is back: " + e.gets("what")); }
 		}
 	}
+	if (stop_early()) { mkdir((verif_dir() + "/build").c_str(), 0755); mkdir((verif_dir() + "/build/work").c_str(), 0755); unlink(stop_file_parent().c_str()); }
 	int wall = tier ? spec->thorough_wall_s : spec->quick_wall_s;
 	if (const char *s = getenv("VERIF_WALL_S")) wall = atoi(s);
 	std::vector<Known> known = load_known();
@@ -607,6 +618,7 @@ int cmd_check(const std::string &property, const std::string &tier_s) {
 	std::string rule_text;
 	for (size_t ji = 0; ji < jobs.size(); ji++) {
 		const Job &job = jobs[ji];
+		if (stop_early() && access(stop_file_parent().c_str(), F_OK) == 0) break;
 		uint64_t nruns = (uint64_t)((tier ? job.thorough_runs : job.quick_runs) * scale);
 		if (engine_by_name(job.engine)->planned_runs(tier)) nruns = engine_by_name(job.engine)->planned_runs(tier);
 		double share = (double)wall * (double)std::max<uint64_t>(1, tier ? job.thorough_runs : job.quick_runs);
